@@ -67,6 +67,11 @@ def rand_seq(rng, kind, maxlen):
     return [rng.randrange(256) for _ in range(n)]
 
 
+def repr_str(t):
+    """printed form of the string whose text is t (the interpreter prints strings between single quotes, unescaped)"""
+    return "'" + t + "'"
+
+
 def cases(rng, tier):
     E, O = lambda s: ('err', s), lambda s: ('ok', s)
     # (1) slicing: exhaustive index triples on short sequences, random beyond
@@ -109,6 +114,20 @@ def cases(rng, tier):
         # concatenation
         items2 = rand_seq(rng, kind, 8)
         yield Case(program=render(bi('ㄷ', se, seq_expr(kind, items2))), tag='concat', monitor='c12_expect', data=O(fmt_seq(kind, items + items2)))
+        if kind == 'list' and rng.random() < 0.5:
+            # host-equal elements of different kinds in one list (1 / 1.0 / 1+0i, 0 / 0.0 / −0.0, equal lists holding them): map,
+            # filter and the folds treat every *position* on its own (seeded change S12i shared map results per equality key)
+            pool = [VL.vint(1), VL.vfloat(1.0), VL.vint(0), VL.vfloat(0.0), VL.vfloat(-0.0), VL.vint(2), VL.vfloat(2.0), VL.vint(7),
+                    VL.vlist([VL.vint(1)]), VL.vlist([VL.vfloat(1.0)]), VL.vbool(True), VL.vstr("1")]
+            xs = [rng.choice(pool) for _ in range(rng.randint(2, 6))]
+            le = VL.vlist(xs).expr
+            if all(x.kind in ('int', 'float') for x in xs):
+                yield Case(program=render(bi('ㅁㄷ', le, raw('ㅁㅈ'))), tag='map-mixed-equal', monitor='c12_expect',
+                           data=O("[" + ", ".join(repr_str(VL.spec_format(x)) for x in xs) + "]"))
+            yield Case(program=render(bi('ㅁㄷ', le, raw('ㅁㄹ'))), tag='map-mixed-equal', monitor='c12_expect',
+                       data=O("[" + ", ".join("[" + VL.spec_format(x) + "]" for x in xs) + "]"))
+            yield Case(program=render(bi('ㅁㄷ', le, fundef(bi('ㅁㄹ', arg(0), arg(0))))), tag='map-mixed-equal', monitor='c12_expect',
+                       data=O("[" + ", ".join("[" + VL.spec_format(x) + ", " + VL.spec_format(x) + "]" for x in xs) + "]"))
         if kind == 'list':
             k = rng.randint(-3, 9)
             # map / filter preserve order
